@@ -184,9 +184,42 @@ theorem fmt4g_round4_same_digits (q : ℚ) (hq : q ≠ 0) :
     `round4 q` — for every rational `q`, fixed and scientific notation, renormalised mantissas included. -/
 theorem readNum_fmt4g (q : ℚ) : readNum (fmt4g q) = some (round4 q) := Serial.readNum_fmt4g q
 
+/-- the printed string is stable under its own rounding: the number that was printed prints as the same string -/
+theorem fmt4g_round4 (q : ℚ) : fmt4g (round4 q) = fmt4g q := by
+  by_cases hq : q = 0
+  · subst hq; rfl
+  obtain ⟨h1, h2, _⟩ := dec4pos_spec q.num.natAbs q.den (num_natAbs_pos q hq) q.den_pos
+  have hp := decOf_value_pos q hq
+  -- the value `V` of the decomposition decomposes into itself
+  have hdecV : ∀ V : ℚ, V = (decOf q).value → decOf V = decOf q := by
+    intro V hV
+    have hp' : 0 < V := hV ▸ hp
+    exact dec4pos_of_value V.num.natAbs V.den (decOf q).m (decOf q).e (num_natAbs_pos V hp'.ne') V.den_pos h1 h2
+      (by rw [natAbs_div_den, abs_of_pos hp', hV, Dec.value, pow10_eq])
+  have hneg : ∀ V : ℚ, decOf (-V) = decOf V := by
+    intro V; unfold decOf; rw [Rat.neg_num, Int.natAbs_neg, Rat.neg_den]
+  unfold fmt4g
+  congr 1
+  have hr : round4 q = if q < 0 then -(decOf q).value else (decOf q).value := by rw [round4_eq, if_neg hq]
+  unfold fmt4gL
+  rw [if_neg hq]
+  by_cases hlt : q < 0
+  · rw [hr, if_pos hlt, if_pos hlt]
+    have hne : -(decOf q).value ≠ 0 := by linarith
+    have hl : -(decOf q).value < 0 := by linarith
+    rw [if_neg hne, if_pos hl]
+    show '-' :: (decOf (-(decOf q).value)).renderL = '-' :: (decOf q).renderL
+    rw [hneg, hdecV _ rfl]
+  · rw [hr, if_neg hlt, if_neg hlt]
+    have hne : (decOf q).value ≠ 0 := hp.ne'
+    have hl : ¬ (decOf q).value < 0 := by linarith
+    rw [if_neg hne, if_neg hl]
+    show (decOf ((decOf q).value)).renderL = (decOf q).renderL
+    rw [hdecV _ rfl]
+
 /-- printing, reading back and printing again changes nothing -/
-theorem fmt4g_readNum_fmt4g (q : ℚ) : (readNum (fmt4g q)).map fmt4g = some (fmt4g (round4 q)) := by
-  rw [readNum_fmt4g]; rfl
+theorem fmt4g_readNum_fmt4g (q : ℚ) : (readNum (fmt4g q)).map fmt4g = some (fmt4g q) := by
+  rw [readNum_fmt4g, Option.map_some, fmt4g_round4]
 
 example : fmt4g (12345 / 10) = "1234" := by decide +kernel
 example : fmt4g (99995 / 10) = "1e+04" := by decide +kernel
